@@ -65,6 +65,21 @@ Proof.
   destruct ((le (slice bs 0 4) + le (slice bs 4 4) + l + le (slice bs 12 4)) mod pow2_32 =? 0); reflexivity.
 Qed.
 
+Lemma c10_misaligned p a bs :
+  a mod 8 <> 0 -> 16 <= len bs ->
+  hdr_load p false {| m_base := a; m_bytes := bs |} =
+    if le (slice bs 8 4) <? 16 then Err EShorterThanHeader else Err EWrongAlignment.
+Proof.
+  intros Ha H16. unfold hdr_load, ref_from_ptr, mrd, rd. cbn [m_bytes hsize].
+  destruct (N.leb_spec (0 + 16) (len bs)) as [_|X]; [|lia]. cbn [bind].
+  rewrite total_size_spec, stored_basic by lia. cbn [bind].
+  set (l := le (slice bs 8 4)) in *.
+  rewrite ref_from_slice_closed. unfold ref_from_slice_spec. cbn [hsize].
+  rewrite N.add_0_r.
+  destruct (N.ltb_spec l 16) as [H1|H1]; [reflexivity|].
+  destruct (N.eqb_spec (a mod 8) 0) as [H2|H2]; [contradiction|reflexivity].
+Qed.
+
 Lemma c10_null p m : hdr_load p true m = Err ENull.
 Proof. reflexivity. Qed.
 
